@@ -1,7 +1,8 @@
 (* C11 property theorems only: each closed by `exact <lemma>` with Print Assumptions beneath.
    Vocabulary: `build P dim mls oracle` is KDTree.__init__ on the point list P (all of dimension dim), with
    max_leaf_size = mls and `oracle s` = what _find_pivot returns at the s-th split (any strategy, any random draw);
-   `query` / `query_radius` are the two searches on the resulting node array; squared distances throughout.
+   `query` / `query_radius` are the two searches on the resulting node array; squared distances throughout;
+   P' = whatever the caller's array holds when the query runs (`self_points P P'` = self.points: P iff the constructor copied).
    Non-vacuity examples (concrete inputs meeting the hypotheses, incl. the two repaired witnesses) are in Proofs.v. *)
 From Coq Require Import ZArith List Bool Permutation Sorting.Sorted.
 Require Import MV.C11.Ext MV.C11.Gen MV.C11.Model MV.C11.ProofsGen MV.C11.ProofsBuild MV.C11.Proofs.
@@ -37,21 +38,21 @@ Print Assumptions C11_box_distance_lower_bound.
 Theorem C11_knn_exact :
   forall (P : list (list Z)) (dim mls : nat) (oracle : nat -> Z),
     1 <= dim -> 1 <= mls -> points_wf dim P ->
-    forall nodes (q : list Z) (k : nat), build P dim mls oracle = Ok nodes ->
-      exists res, query P nodes q k = Ok res /\
+    forall nodes (P' : list (list Z)) (q : list Z) (k : nat), build P dim mls oracle = Ok nodes ->
+      exists res, query (self_points P P') nodes q k = Ok res /\
         length res = Nat.min k (length P) /\
         NoDup res /\ (forall i, In i res -> i < length P) /\
         StronglySorted (fun a b => (sqdist P q a <= sqdist P q b)%Z) res /\
         (forall i j, In i res -> j < length P -> ~ In j res -> (sqdist P q i <= sqdist P q j)%Z).
-Proof. exact knn_exact. Qed.
+Proof. exact knn_exact_alias. Qed.
 Print Assumptions C11_knn_exact.
 
 (* query_radius returns exactly the indices within the radius, each once *)
 Theorem C11_radius_exact :
   forall (P : list (list Z)) (dim mls : nat) (oracle : nat -> Z),
     1 <= dim -> 1 <= mls -> points_wf dim P ->
-    forall nodes (q : list Z) (r2 : Z), build P dim mls oracle = Ok nodes ->
-      exists res, query_radius P nodes q r2 = Ok res /\ NoDup res /\
+    forall nodes (P' : list (list Z)) (q : list Z) (r2 : Z), build P dim mls oracle = Ok nodes ->
+      exists res, query_radius (self_points P P') nodes q r2 = Ok res /\ NoDup res /\
         (forall j, In j res <-> (j < length P /\ (sqdist P q j <= r2)%Z)).
-Proof. exact radius_exact. Qed.
+Proof. exact radius_exact_alias. Qed.
 Print Assumptions C11_radius_exact.
